@@ -290,10 +290,17 @@ def hCumsumBlocks : Handler := handler fun args =>
 
 /-! ### C30 -/
 open Dask.ArrayExpr in
+def toBinOp? : String → Option BinOp
+  | "add" => some .add | "sub" => some .sub | "mul" => some .mul | "max" => some .max | _ => none
+
+open Dask.ArrayExpr in
 partial def toAE? : SExp → Option AE
   | .list [.sym "leaf", d, c] => do pure (.leaf (← d.toInts?) (← c.toNats?))
-  | .list [.sym "neg", a] => do pure (.neg (← toAE? a))
-  | .list [.sym "add", a, b] => do pure (.add (← toAE? a) (← toAE? b))
+  | .list [.sym "un", .sym op, a] => do
+    let op ← match op with | "neg" => some UnOp.neg | "abs" => some UnOp.abs | "square" => some UnOp.square | _ => none
+    pure (.un op (← toAE? a))
+  | .list [.sym "bin", .sym op, a, b] => do pure (.bin (← toBinOp? op) (← toAE? a) (← toAE? b))
+  | .list [.sym "bins", .sym op, a, .int sc] => do pure (.binS (← toBinOp? op) (← toAE? a) sc)
   | .list [.sym "slice", s, e, a] => do pure (.slice (← s.toNat?) (← e.toNat?) (← toAE? a))
   | .list [.sym "rechunk", c, a] => do pure (.rechunk (← c.toNats?) (← toAE? a))
   | .list [.sym "concat", a, b] => do pure (.concat (← toAE? a) (← toAE? b))
@@ -304,8 +311,9 @@ open Dask.ArrayExpr in
 /-- chunks of every node, preorder -/
 def nodeChunks : AE → List (List Nat)
   | e@(.leaf _ _) => [chunks e]
-  | e@(.neg a) => chunks e :: nodeChunks a
-  | e@(.add a b) => chunks e :: (nodeChunks a ++ nodeChunks b)
+  | e@(.un _ a) => chunks e :: nodeChunks a
+  | e@(.bin _ a b) => chunks e :: (nodeChunks a ++ nodeChunks b)
+  | e@(.binS _ a _) => chunks e :: nodeChunks a
   | e@(.slice _ _ a) => chunks e :: nodeChunks a
   | e@(.rechunk _ a) => chunks e :: nodeChunks a
   | e@(.concat a b) => chunks e :: (nodeChunks a ++ nodeChunks b)
